@@ -63,6 +63,7 @@ fn main() {
         cur_case: 0,
         exhaustive: false,
         timed_out: false,
+        nonterm: 0,
     };
     if !dnsmon::checks::run(&mut ctx) {
         eprintln!("unknown check {}", ctx.check);
